@@ -500,3 +500,15 @@ mut('c02-mse-no-factor-2', ['C02'], 'mse_loss_backward drops the factor 2', [(K,
 mut('c01-twin-sqrt-half', ['C01'], 'sqrt_backward written as 0.5 * grad / sqrt_a', [(K, "return grad / (2 * sqrt_a)", "return 0.5 * grad / sqrt_a")], expect='silent')
 mut('c02-twin-sigmoid-expanded', ['C02'], 'sigmoid_backward written as grad * (s - s**2)', [(K, "return grad * sigmoid_a * (1 - sigmoid_a)", "return grad * (sigmoid_a - sigmoid_a**2)")], expect='silent')
 mut('c02-twin-sigmoid-forward-form', ['C02'], 'sigmoid_forward written as exp(a)/(1+exp(a))-free form 1/(1+exp(-a)) with a temporary', [(K, "    return 1/(1 + np.exp(-a))", "    e = np.exp(-a)\n    return 1/(1 + e)")], expect='silent')
+
+# ------------------------------------------------------------------------------------------------ DEFN / EXPLOG (exp-log term identities)
+mut('defn-softmax-unshifted-sum', ['C06', 'C09'], 'softmax divides the shifted exponentials by the UNshifted sum', [(K, "    exp_sums = exps.sum(axis=axis, keepdims=True)\n    return exps / exp_sums", "    exp_sums = np.exp(a).sum(axis=axis, keepdims=True)\n    return exps / exp_sums")], rules=['C06.DEFN', 'C09.DEFN', 'C14.EXPLOG'])
+mut('defn-logsoftmax-max-not-restored', ['C06', 'C09', 'C14'], 'log_softmax forgets to add the subtracted maximum back to the log-sum-exp', [(K, "    lse = max_val + np.log(exp.sum(axis=axis, keepdims=True))", "    lse = np.log(exp.sum(axis=axis, keepdims=True))")], rules=['C06.DEFN', 'C09.DEFN', 'C14.EXPLOG'])
+mut('defn-bce-logits-target-swapped', ['C06', 'C14'], 'BCE-with-logits weights the logit by y instead of (1 - y)', [(K, "    loss = (1-y_true) * y_pred + tn + np.log(np.exp(-tn) + np.exp((-y_pred-tn)))", "    loss = y_true * y_pred + tn + np.log(np.exp(-tn) + np.exp((-y_pred-tn)))")], rules=['C06.DEFN', 'C09.DEFN', 'C14.EXPLOG'])
+mut('defn-bce-logits-shift-one-sided', ['C06', 'C09', 'C14'], 'BCE-with-logits shifts only one of the two exponentials', [(K, "    loss = (1-y_true) * y_pred + tn + np.log(np.exp(-tn) + np.exp((-y_pred-tn)))", "    loss = (1-y_true) * y_pred + tn + np.log(np.exp(-tn) + np.exp((-y_pred)))")], rules=['C06.DEFN', 'C09.DEFN', 'C14.EXPLOG'])
+mut('defn-sigmoid-sign', ['C06', 'C09'], 'sigmoid written with exp(+a)', [(K, "    return 1/(1 + np.exp(-a))", "    return 1/(1 + np.exp(a))")], rules=['C06.DEFN', 'C09.DEFN', 'C14.EXPLOG'])
+mut('defn-selu-alpha-outside', ['C06'], 'selu applies alpha outside the min', [(K, "    return scale * (np.maximum(0, a) + np.minimum(0, alpha * (np.exp(a) - 1)))", "    return scale * (np.maximum(0, a) + alpha * np.minimum(0, (np.exp(a) - 1)))")], rules=['C06.DEFN', 'C09.DEFN', 'C14.EXPLOG'])
+mut('defn-mse-abs', ['C06'], 'mse computes |p - t| * (p - t) ... written as (p - t) * (p + t)', [(K, "    loss = (y_pred - y_true)**2\n    return loss", "    loss = (y_pred - y_true) * (y_pred + y_true)\n    return loss")], rules=['C06.DEFN', 'C09.DEFN', 'C14.EXPLOG'])
+mut('defn-twin-softmax-respelled', ['C06', 'C09', 'C14'], 'softmax with the shift inlined and the quotient written as a product with the reciprocal', [(K, "    shiftx = a - a.max(axis=axis, keepdims=True) \n    exps = np.exp(shiftx)\n    exp_sums = exps.sum(axis=axis, keepdims=True)\n    return exps / exp_sums", "    m = np.max(a, axis=axis, keepdims=True)\n    exps = np.exp(a - m)\n    return exps * (1 / np.sum(exps, axis=axis, keepdims=True))")], expect='silent')
+mut('defn-twin-logsoftmax-direct', ['C06', 'C09', 'C14'], 'log_softmax written as shifted input minus log of the shifted sum', [(K, "    lse = max_val + np.log(exp.sum(axis=axis, keepdims=True))\n    log_softmax = a - lse", "    log_softmax = substract - np.log(exp.sum(axis=axis, keepdims=True))")], expect='silent')
+mut('defn-twin-bce-logits-softplus-form', ['C06', 'C14'], 'BCE-with-logits with the log-sum-exp factored the other way round', [(K, "    loss = (1-y_true) * y_pred + tn + np.log(np.exp(-tn) + np.exp((-y_pred-tn)))", "    loss = y_pred - y_true * y_pred + (tn + np.log(np.exp(-y_pred - tn) + np.exp(-tn)))")], expect='silent')
